@@ -647,6 +647,18 @@ pub fn build_fast_check_type_graph<'a>(
       if errors.is_empty() {
         final_result.extend(fast_check_modules);
       }
+    } else if package.cache_items.iter().any(|(_, r)| r.is_err()) {
+      // The cache remembers a failed package by the modules that were
+      // visited before the diagnostic. Like a fresh analysis, report the
+      // failure on every entrypoint rather than on those modules.
+      for entrypoint in &package.entrypoints {
+        final_result.push((
+          entrypoint.clone(),
+          Err(vec![FastCheckDiagnostic::Cached {
+            specifier: entrypoint.clone(),
+          }]),
+        ));
+      }
     } else {
       // use the items from the cache
       final_result.extend(package.cache_items);
